@@ -30,12 +30,14 @@ from vlib import Ctx, bag, log, plain
 ID = "C08"
 LEVEL = "proof"
 MODULES = ["SqlframeModel.Codec.C08", "SqlframeModel.Props.C08"]
-GEN = ["Window"]
+GEN = ["Window", "C08Chain", "Operations", "Methods", "Clauses"]
 SOURCES = [
     "SqlframeModel/Props/C08.lean",
     "SqlframeModel/Lemmas/C08.lean",
     "SqlframeModel/Impl/C08Window.lean",
     "SqlframeModel/Impl/C08Spec.lean",
+    "SqlframeModel/Impl/C08Chain.lean",
+    "SqlframeModel/Lemmas/C08Chain.lean",
 ]
 
 UP = -(1 << 63)  # Window.unboundedPreceding
@@ -412,6 +414,12 @@ def cases_for(ctx: Ctx) -> t.List[dict]:
             order = rand_order(rng, unique=True, bare_p=0.4, expr_p=0.6)
             cases.append(mk_case(rows, mk_ops(rand_part(rng), order, None), rand_fn(rng, rng.choice(["row_number", "rank", "lag", "sum", "first", "dense_rank"])), origin="expr-keys-mixed"))
 
+    # (12) the window column INSIDE a DataFrame chain: which calls share a SELECT block with the window function
+    #      (tools/props/c08_chain.py)
+    import c08_chain as CH
+
+    cases += CH.cases_for(ctx)
+
     # (7) random specs
     n_rand = 2500 if ctx.thorough else 260
     kinds = ["row_number", "rank", "dense_rank", "percent_rank", "cume_dist", "ntile", "lag", "lead"] + AGGS
@@ -559,6 +567,10 @@ def show_fn(fn: list) -> str:
 
 
 def show_case(c: dict) -> str:
+    if "chain" in c:
+        import c08_chain as CH
+
+        return CH.show(c)
     s = f"df{list(c['schema'])}{c['rows']}"
     if c.get("pre"):
         s += f".where({X.show(tuple_(c['pre']))})"
@@ -849,16 +861,33 @@ def merge_sides(sides: t.List[dict]) -> dict:
 
 
 def agree(r: dict, a: dict, b: dict) -> bool:
+    if "chain" in r["case"]:
+        import c08_chain as CH
+
+        return CH.same_bag(a, b)
     return same_multiset(a, b, r["proj"]) if r.get("proj") else same(a, b)
 
 
+def run_any(c: dict) -> dict:
+    if "chain" in c:
+        import c08_chain as CH
+
+        return CH.run_impl(c)
+    return run_impl(c)
+
+
 def evaluate(cases: t.List[dict], workers: int = 0) -> t.List[dict]:
+    import c08_chain as CH
+
     lean_cases: t.List[dict] = []
     spans: t.List[t.Tuple[int, int]] = []
     for c in cases:
         a = len(lean_cases)
-        for fn, name in zip(all_fns(c), col_names(c)):
-            lean_cases.append(case_to_lean(len(lean_cases), c, fn, name))
+        if "chain" in c:
+            lean_cases.append(CH.to_lean(len(lean_cases), c))
+        else:
+            for fn, name in zip(all_fns(c), col_names(c)):
+                lean_cases.append(case_to_lean(len(lean_cases), c, fn, name))
         spans.append((a, len(lean_cases)))
     raw = vlib.run_driver("C08", lean_cases)
     for o in raw:
@@ -872,9 +901,12 @@ def evaluate(cases: t.List[dict], workers: int = 0) -> t.List[dict]:
             o["spec"] = merge_sides([x["spec"] for x in raw[a:b]])
             o["accepts"] = all(x["accepts"] for x in raw[a:b])
         outs.append(o)
-    impls = vlib.parallel_map(run_impl, cases, workers)
+    impls = vlib.parallel_map(run_any, cases, workers)
     res = []
     for c, o, impl in zip(cases, outs, impls):
+        if "chain" in c:
+            res.append(CH.judge(c, o, impl))
+            continue
         row_determined = (not tie_dependent(c)) or bool(o["unique"])
         proj = None if row_determined else tie_safe_projection(c)
         determined = row_determined or proj is not None
@@ -921,8 +953,20 @@ def is_known(r: dict, known: t.Dict[str, dict]) -> bool:
 
 def shrink(c: dict, failing: t.Callable[[dict], bool], rounds: int = 10) -> dict:
     best = c
-    for _ in range(rounds):
+    for _ in range(40 if "chain" in c else rounds):
         cands = []
+        if "chain" in best:
+            import c08_chain as CH
+
+            cands = CH.shrink_candidates(best)
+            if not cands:
+                break
+            res = evaluate(cands, workers=1)
+            nxt = next((r["case"] for r in res if failing(r)), None)
+            if nxt is None:
+                break
+            best = nxt
+            continue
         if best.get("post"):
             cands.append(dict(best, post=None))
         if best.get("pre"):
@@ -1065,8 +1109,46 @@ def exercise_gen(ctx: Ctx) -> t.Dict[str, t.Any]:
             raised = True
         if raised != fl[flag]:
             bad.append(f"Window.{name}() raises IndexError: live {raised}, generated {fl[flag]}")
+    # Gen.C08Chain: how a window column enters a chain (withColumn / withColumns / _convert_leaf_to_cte / where)
+    try:
+        ch = gen.get("chain", {})
+        base = X.make_df(session(), {"id": "int", "x": "int", "v": "int"}, [[1, 5, 2], [2, 6, None]])
+        spec = BW.orderBy(F.col("id").asc())
+        d = base.withColumn("x", F.lit(7))
+        pos = list(d.columns).index("x") if list(d.columns).count("x") == 1 else None
+        if (pos == 1) != ch.get("withColumnsExistingInPlace"):
+            bad.append(f"withColumn on an existing name: columns {list(d.columns)}, generated in-place={ch.get('withColumnsExistingInPlace')}")
+        d = base.withColumn("zz", F.row_number().over(spec))
+        if (list(d.columns) == ["id", "x", "v", "zz"]) != ch.get("withColumnsNewAtEnd") or list(d.columns) not in (["id", "x", "v", "zz"], ["zz", "id", "x", "v"]):
+            bad.append(f"withColumn with a new name: columns {list(d.columns)}, generated at-end={ch.get('withColumnsNewAtEnd')}")
+        # _convert_leaf_to_cte on a block that has WHERE / ORDER BY / LIMIT: what the new open block carries
+        blk = base.where(F.col("id") > 0).orderBy("id").limit(5)
+        nw = blk._convert_leaf_to_cte().expression
+        carried = [k for k in ("where", "order", "limit", "distinct", "group", "having") if nw.args.get(k)]
+        if (not carried) != ch.get("convertLeafFreshSelect"):
+            bad.append(f"_convert_leaf_to_cte: the new block carries {carried}, generated fresh={ch.get('convertLeafFreshSelect')}")
+        if len(nw.ctes) != len(blk.expression.ctes) + 1:
+            bad.append(f"_convert_leaf_to_cte: {len(blk.expression.ctes)} CTEs before, {len(nw.ctes)} after")
+        # the *body* of where on a block whose select list holds a window function: the predicate lands in that block's WHERE
+        wdf = base.withColumn("w", F.sum("x").over(spec))
+        body = type(wdf).where.__wrapped__(wdf, F.col("id") > 1)
+        landed = body.expression.args.get("where") is not None and len(body.expression.ctes) == len(wdf.expression.ctes) and body.expression.find(exp.Window) is not None
+        if landed != ch.get("whereIntoHandedBlock"):
+            bad.append(f"where.__wrapped__ on a window block: predicate in that block's WHERE = {landed}, generated {ch.get('whereIntoHandedBlock')}")
+        # the decorator tags the chain model uses
+        from sqlframe.base.operations import Operation
+
+        want = gen.get("tags", {})
+        for name, tag in want.items():
+            m = getattr(type(base), name)
+            cells = [c.cell_contents for c in (getattr(m, "__closure__", None) or ())]
+            live = next((int(c) for c in cells if isinstance(c, Operation)), None)
+            if live != tag:
+                bad.append(f"@operation tag of {name}: live {live}, generated {tag}")
+    except Exception as e:  # noqa
+        bad.append(f"Gen.C08Chain could not be exercised: {type(e).__name__}: {str(e)[:200]}")
     for b in bad:
-        ctx.broken.append("Gen.Window disagrees with the running code: " + b)
+        ctx.broken.append("Gen.Window / Gen.C08Chain disagrees with the running code: " + b)
     return {"boundary_integers_checked": n_bound, "pyspark_constants_checked": spark_checked, "gen": gen}
 
 
@@ -1109,18 +1191,39 @@ def fnc(fn):
     if k == "ntile": return F.ntile(fn[1])
     if k in ("lag", "lead"): return getattr(F, k)(fn[1], fn[2]) if fn[3] is None else getattr(F, k)(fn[1], fn[2], fn[3])
     return getattr(F, k)(fn[1])
+def spec(ops):
+    w = None
+    for o in ops:
+        t = Window if w is None else w
+        if o["op"] == "partitionBy": w = t.partitionBy(*o["cols"])
+        elif o["op"] == "orderBy": w = t.orderBy(*[key(*k) for k in o["keys"]])
+        else: w = getattr(t, o["op"])(o["s"], o["e"])
+    if w is None: w = Window.partitionBy()
+    return w
+def item(it):
+    if it[0] == "col": return it[1] if (len(it) > 2 and it[2] == "str") else F.col(it[1])
+    if it[0] == "expr": return tocol(it[2]).alias(it[1])
+    return fnc(it[3]).over(spec(it[2])).alias(it[1])
 for c in cases:
     try:
-        w = None
-        for o in c["ops"]:
-            t = Window if w is None else w
-            if o["op"] == "partitionBy": w = t.partitionBy(*o["cols"])
-            elif o["op"] == "orderBy": w = t.orderBy(*[key(*k) for k in o["keys"]])
-            else: w = getattr(t, o["op"])(o["s"], o["e"])
-        if w is None: w = Window.partitionBy()
         ddl = ", ".join(f"{n} {'bigint' if k == 'int' else 'string'}" for n, k in c["schema"].items())
         df = spark.createDataFrame([tuple(r) for r in c["rows"]], schema=ddl)
-        df = df.select(*[F.col(n) for n in c["schema"]], fnc(c["fn"]).over(w).alias("w"))
+        if "chain" in c:
+            for st in c["chain"]:
+                k = st["k"]
+                if k == "where": df = df.where(st["sql"]) if st.get("str") else df.where(tocol(st["p"]))
+                elif k == "select": df = df.select(*[item(i) for i in st["items"]])
+                elif k == "withColumn":
+                    it = st["item"]
+                    df = df.withColumn(it[1], tocol(it[2]) if it[0] == "expr" else fnc(it[3]).over(spec(it[2])))
+                elif k == "distinct": df = df.distinct()
+                elif k == "orderBy": df = df.orderBy(*[getattr(F.col(n), f)() for n, f in st["keys"]])
+                elif k == "limit": df = df.limit(st["n"])
+                elif k == "drop": df = df.drop(*st["cols"])
+                elif k == "groupAgg": df = df.groupBy(*st["keys"]).agg(*[getattr(F, a[1])(a[2]).alias(a[0]) for a in st["aggs"]])
+                else: raise ValueError(k)
+        else:
+            df = df.select(*[F.col(n) for n in c["schema"]], fnc(c["fn"]).over(spec(c["ops"])).alias("w"))
         out.append({"cols": df.columns, "rows": [list(r) for r in df.collect()]})
     except Exception as e:
         out.append({"err": type(e).__name__ + ": " + str(e)[:160]})
@@ -1133,7 +1236,14 @@ def run_pyspark(cases: t.List[dict]) -> t.Optional[t.List[dict]]:
 
     d = tempfile.mkdtemp(prefix="c08spark")
     open(os.path.join(d, "s.py"), "w").write(SPARK_SCRIPT)
-    json.dump([{k: c[k] for k in ("schema", "rows", "ops", "fn")} for c in cases], open(os.path.join(d, "in.json"), "w"))
+    import c08_chain as CH
+
+    def wire(c: dict) -> dict:
+        if "chain" in c:
+            return {"schema": c["schema"], "rows": c["rows"], "chain": [dict(st, sql=CH.to_sql(st["p"])) if st["k"] == "where" and st.get("str") else st for st in c["chain"]]}
+        return {k: c[k] for k in ("schema", "rows", "ops", "fn")}
+
+    json.dump([wire(c) for c in cases], open(os.path.join(d, "in.json"), "w"))
     env = dict(os.environ, PYSPARK_PYTHON="/venv/bin/python")
     try:
         p = subprocess.run(["/venv/bin/python", os.path.join(d, "s.py"), os.path.join(d, "in.json"), os.path.join(d, "out.json")], env=env, capture_output=True, text=True, timeout=1500, cwd=d)
@@ -1152,9 +1262,14 @@ def validate_spec_on_pyspark(ctx: Ctx, res: t.List[dict], limit: int) -> t.Dict[
     # keep every origin represented
     pool.sort(key=lambda r: r["case"].get("origin", ""))
     step = max(1, len(pool) // limit)
-    first = [r for r in pool if r["case"].get("origin", "").startswith(("corpus", "chain-", "grid-sentinels"))]
-    first += [r for r in pool if r["case"].get("origin", "").startswith("expr-keys")][::4][:80]
-    sample = (first + [r for r in pool[::step] if r not in first])[:limit]
+    plain_pool = [r for r in pool if "chain" not in r["case"]]
+    first = [r for r in plain_pool if r["case"].get("origin", "").startswith(("corpus", "chain-", "grid-sentinels"))]
+    first += [r for r in plain_pool if r["case"].get("origin", "").startswith("expr-keys")][::4][:80]
+    n_chain = min(150, limit // 3)
+    chains = [r for r in pool if "chain" in r["case"]]
+    chain_sample = chains[:: max(1, len(chains) // n_chain)][:n_chain]
+    step = max(1, len(plain_pool) // max(1, limit - n_chain))
+    sample = (first + [r for r in plain_pool[::step] if r not in first])[: limit - len(chain_sample)] + chain_sample
     outs = run_pyspark([r["case"] for r in sample])
     if outs is None:
         return {"pyspark_live": "not available"}
@@ -1171,7 +1286,7 @@ def validate_spec_on_pyspark(ctx: Ctx, res: t.List[dict], limit: int) -> t.Dict[
                 first = {"program": show_case(r["case"]), "pyspark": side, "specification": r["spec"]}
     if bad:
         ctx.broken.append(f"the Lean specification (Impl/C08Window.lean + sparkDef) disagrees with live PySpark on {bad} of {len(sample)} cases; first: {json.dumps(first)[:600]}")
-    return {"pyspark_live": "ok", "pyspark_cases": len(sample), "pyspark_disagreements": bad}
+    return {"pyspark_live": "ok", "pyspark_cases": len(sample), "pyspark_chain_cases": sum(1 for r in sample if "chain" in r["case"]), "pyspark_disagreements": bad}
 
 
 # ------------------------------------------------------------------------------------------------
@@ -1212,8 +1327,18 @@ def run(ctx: Ctx) -> None:
     form_hist: t.Dict[str, int] = {}
     origin_hist: t.Dict[str, int] = {}
     nontrivial = set()
+    chain_hist: t.Dict[str, int] = {}
     for r in res:
         c = r["case"]
+        if "chain" in c:
+            import c08_chain as CH
+
+            origin_hist[c.get("origin", "?").split(":")[0]] = origin_hist.get(c.get("origin", "?").split(":")[0], 0) + 1
+            sig = ">".join(("window" if (st["k"] == "withColumn" and st["item"][0] == "win") or (st["k"] == "select" and any(i[0] == "win" for i in st["items"])) else st["k"]) for st in c["chain"])
+            chain_hist[sig] = chain_hist.get(sig, 0) + 1
+            if r["compared_spec"] and "rows" in r["impl"] and len(r["impl"]["rows"]) > 0:
+                nontrivial.add(CH.digest(c))
+            continue
         fn_hist[c["fn"][0]] = fn_hist.get(c["fn"][0], 0) + 1
         frames = [o for o in c["ops"] if o["op"] in ("rowsBetween", "rangeBetween")]
         fk = "default" if not frames else frames[-1]["op"][:-7]
@@ -1249,21 +1374,30 @@ def run(ctx: Ctx) -> None:
                 vlib.report_known(ctx, e, e["summary"])
 
     if clause_mismatch:
-        r = clause_mismatch[0]
-        ctx.broken.append(
-            f"correspondence stream A (clause held by the real WindowSpec vs Impl/C08Spec.lean `emit`): {len(clause_mismatch)} of {len(res)} differ; first: "
-            f"{show_ops(r['case']['ops'])} real={json.dumps(r['clause'])} model={json.dumps(r['emit'])}"
-        )
+        chain_mm = [r for r in clause_mismatch if "chain" in r["case"]]
+        spec_mm = [r for r in clause_mismatch if "chain" not in r["case"]]
+        if spec_mm:
+            r = spec_mm[0]
+            ctx.broken.append(
+                f"correspondence stream A (clause held by the real WindowSpec vs Impl/C08Spec.lean `emit`): {len(spec_mm)} of {len(res)} differ; first: "
+                f"{show_ops(r['case']['ops'])} real={json.dumps(r['clause'])} model={json.dumps(r['emit'])}"
+            )
+        if chain_mm:
+            r = chain_mm[0]
+            ctx.broken.append(
+                f"correspondence stream A for chains (number of CTEs after every call: which calls share a SELECT block with the window function, real DataFrame vs Impl/C08Chain.lean): "
+                f"{len(chain_mm)} of {sum(1 for x in res if 'chain' in x['case'])} differ; first: {show_case(r['case'])} real={json.dumps(r['clause'])} model={json.dumps(r['emit'])}"
+            )
     if model_mismatch:
         ctx.broken.append(f"correspondence stream B (real sqlframe + DuckDB values vs the model's reading of the emitted clause): {len(model_mismatch)} of {len(res)} cases differ")
     gen = gen_info.get("gen", {})
     if immut_bad and gen and all(gen["flags"].get(k, True) for k in ("partitionByCopies", "orderByCopies", "rowsBetweenCopies", "rangeBetweenCopies", "overCopies")):
         r = immut_bad[0]
-        ctx.broken.append(f"immutability observed on the real objects contradicts Gen.Window's copy flags: {show_ops(r['case']['ops'])} {r['obs']}")
+        ctx.broken.append(f"immutability observed on the real objects contradicts Gen.Window's copy flags: {show_case(r['case'])} {r['obs']}")
 
     pyspark_info: t.Dict[str, t.Any] = {}
     if ctx.thorough and res:
-        pyspark_info = validate_spec_on_pyspark(ctx, res, 400)
+        pyspark_info = validate_spec_on_pyspark(ctx, res, 550)
 
     reported = 0
     for r in new_viol[:3]:
@@ -1309,7 +1443,10 @@ def run(ctx: Ctx) -> None:
             "distinct_nontrivial": len(nontrivial),
             "rule": "corpus; every frame kind x start x end (sentinels and offsets -2..2) x every aggregate; every order-key form x ranking / offset functions and default-frame aggregates; "
             "no-ORDER-BY windows; sentinel-adjacent boundary integers; repeated builder calls (incl. a second rowsBetween/rangeBetween replacing the frame); window column between filters; "
-            "tied order keys under every ROWS frame and position functions (compared as multisets); one WindowSpec object passed to .over() 2-4 times before the Columns are used; random specs. "
+            "tied order keys under every ROWS frame and position functions (compared as multisets); one WindowSpec object passed to .over() 2-4 times before the Columns are used; random specs; "
+            "DataFrame chains around the window column (tools/props/c08_chain.py): every sensitive function x withColumn/select x a following filter on a passed-through column (Column, SQL string, filter alias), "
+            "ORDER BY + LIMIT, DISTINCT, narrowing select, groupBy().agg(); filter / LIMIT / DISTINCT over duplicates / redefined column / groupBy().agg() BEFORE the window column; the window column replacing a column; "
+            "a window over a window column; several window columns with calls in between; random chains (rows as bags, column names, and the number of CTEs after every call). "
             "non-trivial = distinct (spec, function, rows, filters) compared with the specification whose window column takes at least two different values",
             "traces_validated_against_impl": sum(r["impl_eq_model"] and r["clause_eq"] for r in res),
             "clause_ast_agree": sum(r["clause_eq"] for r in res),
@@ -1326,6 +1463,9 @@ def run(ctx: Ctx) -> None:
             "frame_histogram": frame_hist,
             "order_key_form_histogram": form_hist,
             "origin_histogram": origin_hist,
+            "chain_cases": sum(1 for r in res if "chain" in r["case"]),
+            "chain_shape_histogram": dict(sorted(chain_hist.items(), key=lambda kv: -kv[1])[:40]),
+            "chain_cte_traces_agree": sum(1 for r in res if "chain" in r["case"] and r["clause_eq"]),
             "gen_exercised": {k: v for k, v in gen_info.items() if k != "gen"},
             "samples": [{"program": show_case(r["case"]), "result": r["impl"].get("rows", r["impl"].get("err"))} for r in res[:: max(1, n // 4)][:4]],
             **pyspark_info,
@@ -1335,6 +1475,11 @@ def run(ctx: Ctx) -> None:
         "DuckDB evaluates a window clause with explicit null placement and frame as Impl/C08Window.lean says, sorts a key without explicit placement NULLS LAST, and fails on INT64 overflow of a RANGE offset (validated by stream B on every case of every run)",
         "PySpark's meaning of the builder calls is Impl/C08Spec.lean `sparkDef` (python thresholds + JVM boundary mapping) over Impl/C08Window.lean (validated against live PySpark 3.5 in the thorough tier when the JVM starts; python-side constants compared on every run)",
         "sys.maxsize = 2^63-1 (compared with the running interpreter)",
+        "DuckDB evaluates one SELECT block in SQL's clause order: WHERE, then the window functions and the select list over the surviving rows, then DISTINCT, ORDER BY (output names), LIMIT "
+        "(Impl/C08Chain.lean evalWBlock; validated by stream B on every chain case of every run); groupBy().agg() with sum/min/max/count as Impl/C08Chain.lean groupAggTable",
+        "PySpark's meaning of a chain is the sequential one (Impl/C08Chain.lean specRunW: every call acts on the result of the previous one, a window function ranges over all rows of the table it is added to); "
+        "validated against live PySpark 3.5 in the thorough tier on a sample of the chain cases",
+        "a chain's result is compared as a bag of rows; it is compared only when every window value is determined by the data (unique order keys where the function depends on tie order) and every LIMIT directly follows an orderBy on a key that is unique in the table",
         "percent_rank / cume_dist / avg are compared as exact ratios from the model against the engine's doubles (1e-12); no theorem is stated about them beyond the shared frame / rank definitions",
         "values that depend on the order of tied rows (row_number, ntile, lag, lead, first, last, ROWS frames) are compared row by row only when the order keys are unique within every partition; "
         "with tied keys they are compared as multisets of (partition key, order key, value) when the function reads only order-key columns / the position (that multiset does not depend on the tie order)",
